@@ -35,6 +35,11 @@ def rand_sp(rng):
             sp[k] = rand_value(rng, 0) if rng.random() < 0.85 else rand_value(rng, 1)
     if rng.random() < 0.5:
         sp["c"] = {"x": rand_value(rng, 0)} if rng.random() < 0.8 else rand_value(rng, 1)
+    # key names that merely START like a namespace ("sp…", "doc…") or like an operator-free dotted path
+    if rng.random() < 0.3:
+        sp["spx"] = rng.choice(SCALARS) if rng.random() < 0.5 else {"y": rng.choice(SCALARS)}
+    if rng.random() < 0.2:
+        sp["docs"] = rng.choice(SCALARS) if rng.random() < 0.5 else {"n": rng.choice(SCALARS)}
     return sp
 
 
@@ -64,7 +69,7 @@ def rand_corpus(rng, nmax=6, clashy=False):
 
 
 # ---------------------------------------------------------------- filters
-KEYS_SP = ["a", "b", "c.x", "sp.a", "sp.c.x", "c", "zz"]
+KEYS_SP = ["a", "b", "c.x", "sp.a", "sp.c.x", "c", "zz", "spx", "spx.y", "docs", "docs.n", "sp.spx.y"]
 KEYS_DOC = ["doc.d", "doc.b", "doc.d.x"]
 
 
@@ -193,6 +198,12 @@ def rand_filter(rng, depth=2, pairs=None):
     f = {op: [rand_filter(rng, depth - 1, pairs) for _ in range(rng.randint(1, 3))]}
     if rng.random() < 0.3:
         f.update(rand_simple(rng, pairs))
+    if rng.random() < 0.3:
+        # several logical operators at one level; the $not operand often matches everything or nothing
+        f["$not"] = rng.choice([{}, {"zz.$exists": False}, {"zz.$exists": True}, rand_filter(rng, depth - 1, pairs)])
+    if rng.random() < 0.15:
+        other = "$or" if op == "$and" else "$and"
+        f[other] = [rand_filter(rng, depth - 1, pairs) for _ in range(rng.randint(1, 2))]
     return f
 
 
@@ -209,6 +220,10 @@ FIXED = [
     {"doc.d.$exists": False}, {"$or": [{"a": 1}, {"doc.d": 1}]}, {"$and": [{"a.$gt": 0}, {"a.$lt": 2}]},
     {"a": {"$in": [1, "x", None]}}, {"a": {"$nin": [1]}}, {"a.$ne": 1}, {"zz.$ne": 1}, {"a.$regex": "^a"},
     {"a.$near": [1, 0.5]}, {"a": {"$near": 1}}, {"a": {"$gt": 0}}, {"a": {"$lte": "x"}},
+    {"$not": {}, "$and": [{"a.$exists": True}]}, {"$not": {"zz.$exists": False}, "$or": [{"a.$exists": True}]},
+    {"$not": {"zz.$exists": False}, "$and": [{"b.$exists": True}], "a.$exists": True},
+    {"spx.y.$exists": True}, {"spx.$exists": True}, {"docs.n.$exists": True}, {"docs.$exists": False},
+    {"$not": {"spx.y.$exists": True}},
 ]
 
 
